@@ -1132,8 +1132,9 @@ impl Area for Tls {
                             let out = im.res.0.lock().unwrap().replace_certificate(&rep);
                             if out.is_ok() {
                                 reference.replace(old_id, id, &names, exp);
-                                // an acknowledged replace leaves the new certificate loaded
-                                if im.res.0.lock().unwrap().get_certificate(&asset.fp).is_none() {
+                                // an acknowledged replace leaves the new certificate loaded (replacing
+                                // a certificate that is not loaded by itself is an acknowledged no-op)
+                                if reference.loaded.contains_key(&id) && im.res.0.lock().unwrap().get_certificate(&asset.fp).is_none() {
                                     r.oracle.push(("acknowledged-replace-unloads-certificate".into(), format!("replace_certificate(old = {:?}, new = certificate {id}) answered Ok but certificate {id} is not in the store", old_str)));
                                 }
                             }
